@@ -90,7 +90,22 @@ def generate(rng, tier):
     spec = {"kind": kind}
     if kind == "pipe":
         spec["throughput"] = tp
-    return {"property": ID, "scenario": {"resources": {"P": spec}, "actors": actors},
+    resources = {"P": spec}
+    if rng.random() < 0.25:
+        # a second, unrelated pipe that is busy at the same time
+        resources["P2"] = {"kind": "pipe", "throughput": rng.choice([0.5, 1, 2])}
+        for i in range(rng.randint(1, 2)):
+            ops = []
+            start2 = rng.choice(STARTS)
+            if start2:
+                ops.append({"op": "sleep", "d": start2})
+            for _ in range(rng.choice([1, 2])):
+                serial += 1
+                ops.append({"op": "transfer", "on": "P2", "id": "y%d" % serial,
+                            "total": rng.choice([1, 2, 3, 4, 6]),
+                            "tp": rng.choice([None, 0.5, 1, 2])})
+            actors.append({"name": "o%d" % i, "ops": ops})
+    return {"property": ID, "scenario": {"resources": resources, "actors": actors},
             "plan": plan, "config": {"waitq": rng.choice(["heap", "sd"])}}
 
 
@@ -163,12 +178,30 @@ def check(rec):
     if rec.outcome != ("ok",):
         bad("run-outcome", "run() ended with %r" % (rec.outcome,))
         return out
-    spec = rec.case["scenario"]["resources"]["P"]
+    for pname, spec in rec.case["scenario"]["resources"].items():
+        if spec.get("kind") in ("pipe", "upipe"):
+            _check_pipe(rec, pname, spec, bad)      # every pipe on its own
+    faulted = rec.world.faulted
+    for spec_a in rec.case["scenario"]["actors"]:
+        actor = spec_a["name"]
+        evs = [ev for ev in rec.trace if ev[3] == actor]
+        if any(ev[4] == "end" for ev in evs):
+            continue
+        cancelled = actor in faulted or any(
+            ev[4] == "cancel" and ev[5] == actor for ev in rec.trace)
+        if not cancelled:
+            bad("stuck", "%s never finished" % actor)
+    return out
+
+
+def _check_pipe(rec, pname, spec, bad):
     throughput = INF if spec["kind"] == "upipe" or spec.get("throughput") == "inf" \
         else Fraction(spec["throughput"])
     begun, ended, torn = {}, {}, {}
     params = {}
     for ev in rec.trace:
+        if ev[4].startswith("transfer") and ev[5] != pname:
+            continue
         if ev[4] == "transfer+":
             begun[ev[6]] = ev[2]
             params[ev[6]] = (ev[7], ev[8], ev[3])
@@ -219,17 +252,6 @@ def check(rec):
             if jobs[ident][1] == 0 and ident in ended and ended[ident] != start:
                 bad("zero-volume-took-time", "%s started %r ended %r" % (ident, start,
                                                                          ended[ident]))
-    faulted = rec.world.faulted
-    for spec_a in rec.case["scenario"]["actors"]:
-        actor = spec_a["name"]
-        evs = [ev for ev in rec.trace if ev[3] == actor]
-        if any(ev[4] == "end" for ev in evs):
-            continue
-        cancelled = actor in faulted or any(
-            ev[4] == "cancel" and ev[5] == actor for ev in rec.trace)
-        if not cancelled:
-            bad("stuck", "%s never finished" % actor)
-    return out
 
 
 def _close(observed, expected):
